@@ -51,7 +51,10 @@ EXTRA = {
            " The point-source shortcut for small islands is interpreted "
            "for 7 pixels and 3-pixel-wide islands (R12)."
            " The background is subtracted exactly once before "
-           "segmentation (R13, shared with C02-R9).",
+           "segmentation (R13, shared with C02-R9)."
+           " Standard errors from the Jacobian whitened like the fit "
+           "(R14), argument binding over the blind-finding call graph "
+           "(R15), negative sources mirror positive ones (R16).",
     "C02": " Also: the island loop visits all labels with the exact label "
            "slices, blanks a copy, and passes (row, column) offsets (R8)."
            " The image handed to find_islands has its background "
@@ -61,7 +64,8 @@ EXTRA = {
            "background subtraction are interpreted over sample "
            "backgrounds (R9)."
            " Out-of-group pixels are marked with NaN, never with a "
-           "number a pixel can take (R8).",
+           "number a pixel can take (R8)."
+           " find_islands does not write into its arguments (R10).",
     "C03": " Also: sign of every value stored into err_* (R11), the island "
            "number stored is the island's own (R2)."
            " The sexagesimal formatters carry after the integer "
@@ -70,12 +74,16 @@ EXTRA = {
            "widths, selection parity (R9); flag bits reach the stored "
            "flags parameter (R14)."
            " The island cut-out excludes other islands' pixels (R15, "
-           "shared with C01-R11).",
+           "shared with C01-R11)."
+           " No state shared between SourceFinder instances (R16).",
     "C04": " Also: each err_* field depends on the stderr of its own "
            "parameter (R8, dependency analysis), covariance-model contract "
            "sites (R9), no narrow dtype in fitting.py (R7)."
            " The noise level of the error model is read from the "
-           "island's own cut-out (R10).",
+           "island's own cut-out (R10)."
+           " No loop-carried state in the component loops (R11); axis "
+           "roles of the coordinate arrays handed to the derivative "
+           "routines (R9).",
     "C05": " Also: refit lower shape bound <= blind-fit lower bound (R7, "
            "symbolic with counter-example), default regrouping length in "
            "arcmin (R8)."
@@ -84,63 +92,82 @@ EXTRA = {
            " Catalogues without psf columns keep their sources in "
            "resize (R10, interpreted for nan)."
            " The loops over islands, sources and batches run to "
-           "completion (R11).",
+           "completion (R11)."
+           " Argument binding (R12), groupby only over sorted sequences "
+           "(R13), axis of clip bounds (R6).",
     "C06": " Also: double precision until the final cast (R6), row / column "
            "axis discipline of the worker (R7), plane addressing of 3-d / "
            "4-d inputs (R8)."
-           " No NaN is replaced by a number inside the estimator (R9).",
+           " No NaN is replaced by a number inside the estimator (R9)."
+           " Argument binding in BANE (R10), nothing memoised (R11).",
     "C07": " Also: row / column axis discipline of the stripe halo and box "
            "(R7)."
            " The pool / barrier rule is decided when only one side is "
            "clamped (R1)."
            " Pool typestate: join only after close / terminate; names "
-           "read before the release are bound on failure paths (R4).",
+           "read before the release are bound on failure paths (R4)."
+           " No finite barrier timeout (R3); exported buffer views are "
+           "released before close() (R4).",
     "C08": " Also: bypass paths of the set operations only where the "
            "operation is the identity (R3), the cache is never mutated in "
            "place (R9), no narrow integer / float dtype (R10), add_pixels "
            "adds (R11)."
            " Derived caches are reset with the demoted cache (R12)."
            " Membership answers are look-ups in the flattened set (R13, "
-           "shared with C09-R6).",
+           "shared with C09-R6)."
+           " Shape builders store inclusive-query pixels at the query "
+           "level (R14), plain pickling (R15), the normaliser writes "
+           "only levels 1..maxdepth (R6).",
     "C09": " Also: membership look-up contract of numpy.isin (R6), the "
            "non-finite mask is exact and taken from values that are still "
            "non-finite (R3), angular-length vs coordinate kinds."
            " Cache aliasing (R7, shared with C08-R9)."
            " Nothing applied before the degin conversion uses an "
-           "angular constant (R8).",
+           "angular constant (R8)."
+           " Every stored pixel list comes from the inclusive query and "
+           "the storage level does not depend on the shape (R1).",
     "C10": " Also: enumeration order of the pixel list vs reshape (R7), "
            "undefined coordinates never inside (R8), column-name kinds."
            " Paths that bypass the masked write exist only behind an "
            "emptiness test of the final mask (R3)."
            " The driver mask_file writes no pixel values itself; every "
            "plane goes through the 2-d routine (R3, R4)."
-           " The image is not narrowed to a smaller float type (R9).",
+           " The image is not narrowed to a smaller float type (R9)."
+           " Masked table cells become undefined positions (R10), "
+           "nothing memoised in regions / MIMAS (R11).",
     "C11": " Also: the tested pixels are exactly the own pixels (R2), the "
            "flattening sees every stored level (R6)."
            " The region is never re-bound or dropped on a partial test; "
            "membership is decided in the island loop (R3)."
            " Derived caches of the membership test are reset with the "
            "demoted cache (R7)."
-           " Membership answers are look-ups in the flattened set (R8).",
+           " Membership answers are look-ups in the flattened set (R8)."
+           " The stored region is the given object, unmodified (R4).",
     "C12": " Also: cache aliasing (R6), vertex (lon, lat) order and RA in "
            "hours at SkyCoord (R4)."
            " No sign carried by an integer sexagesimal field in the DS9 "
            "writer (R4)."
            " The template's table is replaced on every path to the "
-           "output (R3).",
+           "output (R3)."
+           " Exports never iterate the level dictionary itself and the "
+           "normaliser stays within levels 1..maxdepth (R1).",
     "C13": " Also: parity analysis under image -> -image of the detection "
            "statistic, summit key, summit acceptance (R4) and of the "
            "catalogue fields (R5)."
            " Guards of load_globals on pixel data take the same value "
            "for negated data (R6)."
            " The err_int_flux computation is interpreted for a source "
-           "and its mirror image (R7).",
+           "and its mirror image (R7)."
+           " The island summary picks the same pixel for an island and "
+           "its negation (R8).",
     "C14": " Also: off-image skip guards evaluated over orderings (R4)."
            " The guards are also interpreted for an undefined (NaN) "
            "centre (R4)."
            " Single-precision table cells are promoted to double (R7)."
            " Sources are placed with the inverse of the catalogue's "
-           "transformation family (R9); outputs of make_residual (R8).",
+           "transformation family (R9); outputs of make_residual (R8)."
+           " Argument binding in AeRes (R10); sorting a pair of "
+           "axis-typed values loses the axis role (R1).",
     "C15": " Also: node arrays not edited after their definition, "
            "decimation starts at pixel 0 (R3)."
            " Row and column extents of compress never influence each "
@@ -148,32 +175,43 @@ EXTRA = {
            " The output file is written after the last header / data "
            "modification (R6)."
            " Raw values are scaled by BSCALE exactly once wherever "
-           "files are opened unscaled (R7).",
+           "files are opened unscaled (R7)."
+           " Every key rescaled by compress is rescaled back by expand "
+           "(R2); nothing memoised in fits_tools (R8).",
     "C16": " Also: dependency of each output of the ellipse / vector "
            "transforms on its own inputs (R5), |cos(defect)| correction in "
            "both siblings (R7), no narrow dtype (R6)."
            " Position angles from two-argument arctangents (R8)."
            " No memoised or shared state in the conversions (R9)."
            " Forward and inverse WCS calls belong to one astropy family "
-           "(R10).",
+           "(R10)."
+           " No snapping of computed coordinates to constants (R3), no "
+           "in-place arithmetic on an inherited dtype (R11).",
     "C17": " Also: conditioning near zero separation (R6), purity of the "
            "vectorised primitives (R7), no narrow dtype (R8)."
            " The rounded seconds are an integer number of output "
-           "quanta, not rescaled afterwards (R4).",
+           "quanta, not rescaled afterwards (R4)."
+           " The placeholder is returned exactly for non-finite input "
+           "(R9); no snapping in translate (R3).",
     "C18": " Also: exhaustive type dispatch of the sqlite and FITS writers "
            "(R7), value provenance in the reader (R4)."
            " No reordering between catalogue and table rows (R8)."
            " The per-type outputs are independent of each other (R9)."
-           " Column types are decided by all rows (R10).",
+           " Column types are decided by all rows (R10)."
+           " Exact float parsing on read (R11), nothing memoised in "
+           "catalogs (R12).",
     "C19": " Also: no narrow dtype in the grouping pipeline (R8)."
            " Ratio 1 is the identity also for unknown (nan) psf (R7); "
            "the greedy variant joins the matched group exactly once "
-           "(R9).",
+           "(R9)."
+           " groupby only over sorted sequences (R10), island and "
+           "component numbers written together (R2).",
     "C20": " Also: plane addressing of cubes with sibling agreement (R5), "
            "BSCALE applied exactly once (R6)."
            " No memoised or module-level state on the load path (R7)."
            " Compressed inputs recognised by keyword presence (R8)."
-           " The whole loaded block is scaled by BSCALE (R6).",
+           " The whole loaded block is scaled by BSCALE (R6)."
+           " Nothing memoised in fits_tools (R7).",
 }
 
 
